@@ -65,6 +65,30 @@ func c15Generate(r *rand.Rand) (*c15rec, error) {
 		}
 		tab = append(tab, gts.Feature{Key: keys[r.Intn(len(keys))], Loc: loc, Props: gts.Props{{"label", fmt.Sprintf("h%d", i)}}})
 	}
+	// siblings that share the outer bounds (and key) of an existing multi-part
+	// feature but differ inside: distinct regions with equal Head and Tail.
+	if r.Intn(3) == 0 {
+		for _, f := range append([]gts.Feature(nil), tab...) {
+			pp := model.Parts(f.Loc)
+			if len(pp) < 2 || pp[0].Rev != pp[len(pp)-1].Rev {
+				continue
+			}
+			lo, hi, ok := model.Bounds(pp)
+			if !ok || hi-lo < 4 {
+				continue
+			}
+			var sib gts.Location = gts.Range(lo, hi)
+			if r.Intn(2) == 0 {
+				mid := lo + 1 + r.Intn(hi-lo-2)
+				sib = gts.Join(gts.Range(lo, mid), gts.Range(mid+1, hi))
+			}
+			if pp[0].Rev {
+				sib = sib.Complement()
+			}
+			tab = append(tab, gts.Feature{Key: f.Key, Loc: sib, Props: gts.Props{{"label", fmt.Sprintf("h%d", len(tab))}}})
+			break
+		}
+	}
 	topo := gts.Linear
 	if r.Intn(2) == 0 {
 		topo = gts.Circular
@@ -155,6 +179,47 @@ func (x *c15run) featuresByLabel(seq gts.Sequence) map[string][]gts.Feature {
 		m[gen.Label(f)] = append(m[gen.Label(f)], f)
 	}
 	return m
+}
+
+// streams runs the command on a stream of records and on each record alone:
+// records are processed independently, so the stream's output must be the
+// concatenation of the outputs for the single records.
+func (x *c15run) stream(recs []*c15rec, cmd string, flags []string, locstr string) {
+	c := x.c
+	args := append([]string{cmd, locstr}, flags...)
+	args = append(args, "--no-cache")
+	var all []byte
+	for _, r := range recs {
+		all = append(all, r.text...)
+	}
+	enc := fmt.Sprintf("stream of %d records: gts %s", len(recs), strings.Join(args, " "))
+	for _, r := range recs {
+		enc += fmt.Sprintf("\n  record residues=%q F=[", clipB(r.bytes, 70))
+		for _, f := range r.tab {
+			enc += fmt.Sprintf("%s %s %s;", f.Key, gen.Label(f), model.SafeString(f.Loc))
+		}
+		enc += "]"
+	}
+	c.Begin(enc)
+	c.Count(enc, len(recs) > 1)
+	c.Bucket("stream:records-independent")
+	var want []byte
+	for _, r := range recs {
+		o := x.env.Run(args, r.text, nil, 60*time.Second)
+		if o.Exit != 0 || o.TimedOut {
+			c.Skip("a single record of the stream makes the command fail (judged by the single-record cases)")
+			return
+		}
+		want = append(want, o.Stdout...)
+	}
+	got := x.env.Run(args, all, nil, 60*time.Second)
+	if got.TimedOut || got.Exit != 0 {
+		c.Violate("stream:fails-where-single-records-succeed:"+cmd, enc, "exit 0", fmt.Sprintf("exit %d %s", got.Exit, clipS(string(got.Stderr), 400)))
+		return
+	}
+	if !bytes.Equal(got.Stdout, want) {
+		c.Violate("stream:differs-from-records-alone:"+cmd, enc, clipS(string(want), 3000), clipS(string(got.Stdout), 3000))
+	}
 }
 
 func (x *c15run) one(rec *c15rec, cmd string, flags []string, locstr string, r *rand.Rand) {
@@ -838,5 +903,19 @@ func (m c15) Run(c *fw.Ctx) {
 		cr := rand.New(rand.NewSource(caseSeed))
 		loc := c15Locator(cr, rec)
 		x.one(rec, k.cmd, k.flags, loc, cr)
+		if (it/len(cmds))%3 == 0 && k.cmd != "insert" && k.cmd != "infix" && !rec.corpus {
+			// the same command over a stream of 2..3 generated records.
+			recs := []*c15rec{rec}
+			for n := 1 + cr.Intn(2); n > 0; n-- {
+				if r2, err := c15Generate(cr); err == nil {
+					recs = append(recs, r2)
+				}
+			}
+			sl := loc
+			if !strings.ContainsAny(loc, "/") && cr.Intn(2) == 0 {
+				sl = []string{"gene", "CDS", "misc_feature", "gene@^", "CDS@$"}[cr.Intn(5)]
+			}
+			x.stream(recs, k.cmd, k.flags, sl)
+		}
 	}
 }
